@@ -87,7 +87,11 @@ struct SimMemoryManager : public xercesc::MemoryManager {
         if (!p) return;
         auto it = table.find(p);
         if (it == table.end()) { ++foreignFrees; if (firstBadFree.empty()) firstBadFree = "foreign-free"; return; }
-        if (!it->second.live) { ++doubleFrees; if (firstBadFree.empty()) firstBadFree = "double-free serial=" + std::to_string(it->second.serial); return; }
+        if (!it->second.live) {
+            ++doubleFrees; if (firstBadFree.empty()) firstBadFree = "double-free serial=" + std::to_string(it->second.serial);
+            if (!reuse && getenv("SIM_DOUBLE_FREE_ABORT")) std::free(p);   // debugging aid: let AddressSanitizer print both stacks
+            return;
+        }
         it->second.live = false; liveBytes -= it->second.size; --liveBlocks; ++frees;
         if (reuse) { memset(p, 0xDD, it->second.size); freeLists[klass(it->second.size ? it->second.size : 1)].push_back(p); }
         else { std::free(p); }   // pass-through: ASan owns use-after-free detection; tombstone stays until the address recurs
